@@ -1759,3 +1759,21 @@ TABLE["C14"] += [
 TABLE["C15"] += [
     B("script-drops-unqualified-ignore-entries", {"X9"}, ("scripts/pybind_wrap.py", "        ignore_classes=args.ignore,", "        ignore_classes=[n for n in args.ignore if '::' in n],")),
 ]
+
+# rules that decide by evaluation report under their own ids: a mutant of the member filter may be named by Q11 (or Q2 for element
+# truthiness), one of the literal encoder by Q12
+for _m in TABLE["C17"]:
+    if _m["kind"] == "break":
+        if "Q5" in _m["rules"]:
+            _m["rules"] |= {"Q11", "Q2"}
+        if "Q1" in _m["rules"]:
+            _m["rules"] |= {"Q12"}
+TABLE["C17"] += [
+    B("parameter-name-fallback-by-truth-value", {"Q2", "Q11"},
+      (XP, "                param_name = params[i].find(\n                    \"declname\"\n                )  # declname is the tag that usually contains the param name\n",
+       "                param_name = params[i].find(\"defname\") or params[i].find(\n                    \"declname\"\n                )\n")),
+    B("astral-characters-as-four-digit-universal-names", {"Q12", "Q1"},
+      (PW, "        return '\"' + body.replace('\"', r'\\\"') + '\"'\n", "        body = re.sub(r'[^\\x00-\\x7f]', lambda match: '\\\\u%04x' % ord(match.group(0)), body)\n        return '\"' + body.replace('\"', r'\\\"') + '\"'\n")),
+    N("non-ascii-as-universal-names-of-the-right-width",
+      (PW, "        return '\"' + body.replace('\"', r'\\\"') + '\"'\n", "        body = re.sub(r'[^\\x00-\\x7f]', lambda match: ('\\\\u%04x' if ord(match.group(0)) <= 0xffff else '\\\\U%08x') % ord(match.group(0)), body)\n        return '\"' + body.replace('\"', r'\\\"') + '\"'\n")),
+]
